@@ -6,6 +6,43 @@ import json
 import sys
 
 
+def run_session(sid, case):
+    """-> (record, final procedure | None)"""
+    from exoverif.gen.programs import build
+    from exoverif import sched
+    from exoverif.common import rejection_types
+
+    rec = {"id": sid, "steps": [], "c": None, "h": None, "err": None}
+    try:
+        env, p = build(case["prog"])
+    except rejection_types() as e:
+        rec["err"] = "frontend:" + type(e).__name__
+        return rec, None
+    except RecursionError:
+        rec["err"] = "frontend:RecursionError"
+        return rec, None
+    sctx = sched.SchedCtx(env, case["prog"])
+    rec["steps"].append(["source", _s(p)])
+    for step in case["steps"]:
+        q, outcome, desc = sched.apply_step(p, step, sctx)
+        if outcome == "accepted":
+            p = q
+            rec["steps"].append([step[0], _s(p)])
+        else:
+            rec["steps"].append([step[0] + ":" + outcome, ""])
+    try:
+        from exo.API import compile_procs_to_strings
+
+        procs = [p]
+        if case.get("also_callees"):
+            procs = [env[c["name"]] for c in case["prog"]["callees"]][:: -1 if case.get("rev_procs") else 1] + [p]
+        c, h = compile_procs_to_strings(procs, "gen.h")
+        rec["c"], rec["h"] = c, h
+    except Exception as e:
+        rec["c"] = "EXC:" + type(e).__name__
+    return rec, p
+
+
 def main():
     req = json.load(sys.stdin)
     from exo.core.prelude import Sym
@@ -28,39 +65,53 @@ def main():
     if req.get("reverse"):
         sessions = list(reversed(sessions))
     out = {}
-    for sid, case in sessions:
-        rec = {"id": sid, "steps": [], "c": None, "h": None, "err": None}
-        try:
-            env, p = build(case["prog"])
-        except rejection_types() as e:
-            rec["err"] = "frontend:" + type(e).__name__
-            out[sid] = rec
-            continue
-        except RecursionError:
-            rec["err"] = "frontend:RecursionError"
-            out[sid] = rec
-            continue
-        sctx = sched.SchedCtx(env, case["prog"])
-        rec["steps"].append(["source", _s(p)])
-        for step in case["steps"]:
-            q, outcome, desc = sched.apply_step(p, step, sctx)
-            if outcome == "accepted":
-                p = q
-                rec["steps"].append([step[0], _s(p)])
-            else:
-                rec["steps"].append([step[0] + ":" + outcome, ""])
-        try:
-            from exo.API import compile_procs_to_strings
-
-            procs = [p]
-            if case.get("also_callees"):
-                procs = [env[c["name"]] for c in case["prog"]["callees"]][:: -1 if case.get("rev_procs") else 1] + [p]
-            c, h = compile_procs_to_strings(procs, "gen.h")
-            rec["c"], rec["h"] = c, h
-        except Exception as e:
-            rec["c"] = "EXC:" + type(e).__name__
+    finals = {}
+    bnd = req.get("boundary")
+    reps = 3 if bnd else 1
+    for pos, (sid, case) in enumerate(sessions):
+        recs = []
+        n_syms = 0
+        for rep in range(reps):
+            if bnd and rep > 0:
+                # "how many symbols were created earlier": advance the global symbol counter (exactly
+                # what creating that many symbols does) to just below the next power of ten, so that
+                # the symbols this session creates straddle a digit-count boundary.  Repetition 0
+                # measures how many symbols the session creates (n); repetitions 1 and 2 place the
+                # boundary after about n/3 and 2n/3 of them (+- a drawn offset).
+                cur = Sym._unq_count
+                pw = 1000
+                while pw - n_syms - 8 < cur:
+                    pw *= 10
+                off = (rep * n_syms) // 3 + (bnd["d"] + pos * bnd["step"]) % 3 - 1
+                tgt = pw - max(0, off)
+                if tgt > cur:
+                    Sym._unq_count = tgt
+            before = Sym._unq_count
+            rec, p = run_session(sid, case)
+            if rep == 0:
+                n_syms = Sym._unq_count - before
+            recs.append(rec)
+        rec = recs[0]
+        # repetitions that deviate from the first one are handed to the parent too (it compares
+        # every one of them with its baseline)
+        rec["alt"] = [r for r in recs[1:] if (r["steps"], r["c"], r["h"], r["err"]) != (rec["steps"], rec["c"], rec["h"], rec["err"])]
         out[sid] = rec
-    json.dump([out[k] for k in sorted(out)], sys.stdout)
+        if p is not None:
+            finals[sid] = p
+    # one joint compilation unit over the final procedures of all sessions that have no callees
+    # (renamed apart): mixes precisions, externs used at several precisions, memories, window
+    # struct shapes and configs in one .c/.h pair
+    joint = {"c": None, "h": None}
+    try:
+        from exo.API import compile_procs_to_strings
+        from exo.stdlib.scheduling import rename
+
+        js = [rename(finals[sid], f"foo_s{sid}") for sid in sorted(finals) if not req["sessions"][sid]["prog"]["callees"]]
+        if js:
+            joint["c"], joint["h"] = compile_procs_to_strings(js, "joint.h")
+    except Exception as e:
+        joint["c"] = "EXC:" + type(e).__name__
+    json.dump([out[k] for k in sorted(out)] + [{"id": "joint", "steps": [], "c": joint["c"], "h": joint["h"], "err": None}], sys.stdout)
 
 
 def _s(p):
